@@ -6,6 +6,27 @@ root = os.path.dirname(os.path.dirname(os.path.abspath(__file__)))
 
 CLAIMED = {
  # id: (category, technique, text, note, design_ref)
+ 'C01': ('exploration', 'differential runtime monitor vs independent reference model (guard-page buffers, TRNG tape interposer)',
+         'Real library on 5 backend/share builds (quick) or 60 (thorough); 9 C entry-point families; full small (adlen,mlen) grid plus boundary-biased random lengths to 4/64 KiB; 6 key/nonce pattern classes; output bytes and *clen compared with a from-the-spec model.',
+         'Trusts the reference model (validated on pinned official vectors); keys/nonces sampled.', '4 C01'),
+ 'C02': ('exploration', 'mutation-driven runtime monitor (every single-bit flip, truncation, extension) on the real decrypt functions',
+         '15 families; per case every bit of ciphertext, tag, AD, nonce and key is flipped, plus truncation/extension/short inputs; result sign and the zero-wipe of a 0xA5 pre-filled plaintext buffer are asserted.',
+         'Multi-bit cancelling forgeries are sampled only.', '4 C02'),
+ 'C03': ('exploration', 'differential runtime monitor vs reference cXOF model',
+         'hash/hasha/xof/xofa/fixed/custom entry points, every message length 0..300 and boundary-biased beyond, declared-length and name-length edge values, compared with a from-the-spec sponge.',
+         'Trusts the reference; long-name hashing follows doc/cxof.dox.', '4 C03'),
+ 'C04': ('exploration', 'differential runtime monitor vs reference PRF/HMAC/KMAC + exhaustive single-bit tag mutation for verify',
+         'PRF/PrfShort/MAC/HMAC(A)/KMAC(A) one-shot and incremental against the model; PrfShort full (inlen,outlen) grid incl. error returns; verify against all 128 one-bit-wrong tags.',
+         'Trusts the reference; PrfShort short output = truncation.', '4 C04'),
+ 'C05': ('exploration', 'differential runtime monitor vs generic RFC 5869 / RFC 8018 over the reference',
+         'HKDF limit and zero-fill semantics driven across the 8160-byte boundary in random pieces; PBKDF2 iteration counts around the count>1/>2 branches with multi-block output; KDF via cXOF.',
+         'Trusts the generic RFC implementations over the validated reference primitives.', '4 C05'),
+ 'C06': ('exploration', 'differential runtime monitor vs reference SIV/ISAP + raw-byte snapshot monitor on pre-computed keys',
+         'SIV and ISAP against the model; ISAP key objects snapshotted before/after every operation in 1..20-packet histories with save/load at a random point.',
+         'Trusts the reference (ISAP: official vectors; SIV: pinned library vectors + doc/siv.dox).', '4 C06'),
+ 'C07': ('exploration', 'history-equivalence runtime monitor (random chunkings, copies, re-init, in-place) vs one-shot results',
+         'Random call histories over every incremental interface compared with the one-shot result of the same run.',
+         'Histories are sampled; one-shot results tied to the reference in the same run.', '4 C07'),
  'C08': ('exploration', 'differential runtime monitor vs reference model + ASan/UBSan + guard pages',
          'Real library built for each of the 5 host backends (release and ASan+UBSan), every (offset,size) pair exhaustively, '
          'structured + random states for all 12 starting rounds, each output compared with an independent reference permutation.',
